@@ -12,7 +12,7 @@
 import json, os, random
 import vlib
 
-RFIX = '{"ready_unknown", "unsuback_one", "unsub_notifs"}'
+RFIX = '{"ready_unknown", "unsuback_one", "unsub_notifs", "resume_submap"}'
 
 ALL_INV = ["NoPanic", "SlabsAligned", "ReadyqSound", "NoLostRequest", "DeliveredExactly", "NoSpurious", "AcksInOrder",
            "WindowBound", "UniqueInflightIds", "InflightIdsValid", "QuiescentComplete"]
@@ -247,3 +247,87 @@ def run_router_property(ctx, pid, mc_runs, gen_runs, inv, big=True, act=(), trac
         "the router is stepped single-threaded through the verif hooks (events and consume() turns in any interleaving, a superset of what run_inner can do)",
         "topic aliases, subscription identifiers, message expiry and segment eviction are not modelled in these configurations",
         "a recorded execution that RouterSys.tla cannot explain is reported as a violation (the model is the reference for the current code)"])
+
+
+# ---------------------------------------------------------------- C03: beyond the model
+def fuzz_scripts(seed, count):
+    """Schedules with features Router.tla does not model (shared subscriptions, Unicode and odd topics, Shadow requests,
+    invalid client ids, unsolicited acks, stale raw events). They are only checked for panics and for the broker still
+    serving a fresh client afterwards (probe)."""
+    out = []
+    topics = ["a/b", "a/c", "\u00e9/x", "\u20acuro", "$SYS/x", "", "/", "a//b", "a/b/c/d/e", "#", "+/+"]
+    filters = ["a/b", "a/+", "#", "+/+", "$share/g/a/b", "$share/g/a/+", "$share/h/#", "$SYS/#", "\u00e9/#", "a/b/#", "$share/g", "$share//a", "+"]
+    cids = ["c1", "c2", "c3", "bad/id", "x#", ""]
+    for k in range(count):
+        g = Gen(seed * 7919 + k, max_conn=3, out_batch=r_choice(seed + k, [1, 2, 10]))
+        r = g.r
+        nets = []
+        for i in range(r.randint(2, 4)):
+            n = "n%d" % (i + 1)
+            g.connect(n, r.choice(cids[:4]), clean=r.random() < 0.5,
+                      will=r.choice(["null", "null", {"m": 9000 + i, "topic": ch(r.choice(topics[:4])), "q": r.choice([0, 1]), "retain": r.random() < 0.3}]))
+            nets.append(n)
+        for _ in range(r.randint(20, 70)):
+            n = r.choice(nets)
+            x = r.random()
+            if x < 0.22:
+                g.subscribe(n, r.choice(filters), r.choice([0, 1, 2]))
+            elif x < 0.30:
+                g.unsubscribe(n, r.choice(filters))
+            elif x < 0.55:
+                g.publish(n, r.choice(topics), r.choice([0, 1, 2]), retain=r.random() < 0.2, empty=r.random() < 0.1)
+            elif x < 0.65:
+                g.ack(n, r.choice(["puback", "pubrec", "pubrel", "pubcomp"]), r.randint(0, 3))
+            elif x < 0.75:
+                g.steps.append({"op": "drain", "n": n}); g.steps.append({"op": "react", "n": n, "max": r.choice([0, 1, 100])})
+            elif x < 0.80:
+                g.steps.append({"op": "rawevent", "kind": r.choice(["Ready", "Disconnect", "DeviceData", "Shadow"]), "id": r.randint(0, 4)})
+            elif x < 0.86:
+                g.steps.append({"op": "close", "n": n}); g.steps.append({"op": "will", "n": n})
+            elif x < 0.92:
+                nn = "n%d" % (len(nets) + 1)
+                g.connect(nn, r.choice(cids[:3]), clean=r.random() < 0.5); nets.append(nn)
+            else:
+                g.push(n, {"t": r.choice(["pingreq", "disconnect"]), "id": 0, "msg": NOMSG, "fs": []})
+            if r.random() < 0.6:
+                g.idle(r.choice([3, 50, 400]))
+        # probe: everybody goes away, a fresh pair must be served
+        g.idle(600)
+        g.steps.append({"op": "closeall"})
+        g.idle(600)
+        g.connect("p1", "probe1"); g.connect("p2", "probe2")
+        g.subscribe("p1", "probe/t", 1); g.idle(50); g.steps.append({"op": "drain", "n": "p1"})
+        g.publish("p2", "probe/t", 1); g.idle(50); g.steps.append({"op": "drain", "n": "p1", "probe": True})
+        out.append({"cfg": g.cfg, "steps": g.steps})
+    return out
+
+
+def r_choice(seed, xs):
+    return random.Random(seed).choice(xs)
+
+
+def run_fuzz(ctx, bindir, scripts, tag):
+    """Runs scripts without trace validation: panics and failed probes are violations."""
+    sp, tp = ctx.path("fuzz_%s.ndjson" % tag), ctx.path("fuzztr_%s.ndjson" % tag)
+    with open(sp, "w") as f:
+        for s in scripts:
+            f.write(json.dumps(s) + "\n")
+    summ = vlib.last_json(vlib.run_bin(os.path.join(bindir, "router_run"), [sp, tp], timeout=1800))
+    lines = open(tp).read().splitlines()
+    probes_ok = 0
+    start = 0
+    for i, l in enumerate(lines):
+        if '"ev":"reset"' in l:
+            start = i
+        if '"panic"' in l:
+            e = json.loads(l)
+            ctx.violation("the real router panicked at %s (%s) while handling a %s step" % (e.get("at"), e.get("panic"), e.get("ev")),
+                          {"script": script_of(lines[start:i + 1]), "panic": e.get("panic"), "at": e.get("at")})
+        elif '"probe":true' in l:
+            e = json.loads(l)
+            got = [x for x in e["res"].get("out", []) if x.get("t") == "forward"] if isinstance(e.get("res"), dict) else []
+            if got:
+                probes_ok += 1
+            else:
+                ctx.violation("after the schedule the broker no longer serves a fresh client (probe publish not delivered)", {"script": script_of(lines[start:i + 1])})
+    return summ["scripts"], summ["events"], probes_ok
